@@ -170,12 +170,15 @@ BOUNDS_Q = [(1, 1), (0, INF), (1, INF), (2, 2)]
 BOUNDS_T = BOUNDS_Q + [(1, 2), (0, 1)]
 
 
-def seq_configs(g, n, bounds, with_monitors=False, any_matchers=True, reduce_symmetry=True, masks=(0, 1, 2, 3)):
-    """All assignments of n expectations (slot i, matcher eq(i) or _, on obj0.f) to subsets of 2 sequences with bounds."""
+def seq_configs(g, n, bounds, with_monitors=False, any_matchers=True, reduce_symmetry=True, masks=(0, 1, 2, 3), times_first=()):
+    """All assignments of n expectations (slot i, matcher eq(i) or _, on obj0.f) to subsets of 2 sequences with bounds.
+    times_first: slots whose expectation states its bounds BEFORE IN_SEQUENCE (the sequence handler then takes the bounds over)."""
     sh = {}
     for mk in ('EQ', 'ANY'):
         for ar in (0, 1, 2):
             sh[(mk, ar)] = g.shape(fn=F1, mk1=mk, seqar=ar, tform='RT')
+            if ar:
+                sh[(mk, ar, 'TQ')] = g.shape(fn=F1, mk1=mk, seqar=ar, tform='RT', clauses='TQA')
     msh = {ar: g.shape(mock='W', seqar=ar) for ar in (0, 1, 2)} if with_monitors else {}
     per = []
     for mask in masks:
@@ -200,7 +203,7 @@ def seq_configs(g, n, bounds, with_monitors=False, any_matchers=True, reduce_sym
             ar = 0 if mask == 0 else (2 if mask == 3 else 1)
             s1 = 1 if mask == 2 else 0
             if kind == 'E':
-                pre.append(g.create(i, sh[(mk, ar)], obj=0, k1=i, lo=b[0], hi=b[1], s1=s1, s2=1))
+                pre.append(g.create(i, sh[(mk, ar, 'TQ')] if (ar and i in times_first) else sh[(mk, ar)], obj=0, k1=i, lo=b[0], hi=b[1], s1=s1, s2=1))
             else:
                 pre.append(g.op(OP_NEW_WATCHED, obj=nw))
                 pre.append(g.monitor(i, msh[ar], w=nw, s1=s1, s2=1))
@@ -216,11 +219,17 @@ def plans_C05(g, tier):
     mask = F_KIND | F_HANDLER | F_REPCOUNT | F_REPCULPRIT | F_QEXP | F_QSEQ | F_CLOG
     if tier == 'quick':
         plans.append(dict(name='seq3', mask=mask, du=0, dm=5, alphabet=alpha, prefixes=seq_configs(g, 3, BOUNDS_Q)))
+        plans.append(dict(name='seq3_times_first', mask=mask, du=0, dm=5, alphabet=alpha,
+                          prefixes=seq_configs(g, 3, [(1, 1), (0, INF), (2, 2)], any_matchers=False, times_first=(0, 1, 2)) +
+                                   seq_configs(g, 3, [(1, 1), (0, INF), (2, 2)], any_matchers=False, times_first=(1,))))
         malpha = alpha + [g.op(OP_DELETE_WATCHED, obj=w) for w in range(2)]
         plans.append(dict(name='seq3mon', mask=mask, du=0, dm=5, alphabet=malpha,
                           prefixes=[p for p in seq_configs(g, 3, [(1, 1), (0, INF)], with_monitors=True, any_matchers=False) if any(o[0] == OP_MONITOR for o in p)]))
     else:
         plans.append(dict(name='seq3', mask=mask, du=0, dm=7, alphabet=alpha, prefixes=seq_configs(g, 3, BOUNDS_T)))
+        plans.append(dict(name='seq3_times_first', mask=mask, du=0, dm=6, alphabet=alpha,
+                          prefixes=seq_configs(g, 3, BOUNDS_Q, any_matchers=False, times_first=(0, 1, 2)) + seq_configs(g, 3, BOUNDS_Q, any_matchers=False, times_first=(1,)) +
+                                   seq_configs(g, 3, BOUNDS_Q, any_matchers=False, times_first=(0, 2))))
         malpha = alpha + [g.op(OP_DELETE_WATCHED, obj=w) for w in range(3)]
         plans.append(dict(name='seq3mon', mask=mask, du=0, dm=6, alphabet=malpha,
                           prefixes=[p for p in seq_configs(g, 3, BOUNDS_Q, with_monitors=True, any_matchers=False) if any(o[0] == OP_MONITOR for o in p)]))
